@@ -156,6 +156,38 @@ theorem C05 (o : Opts) (m : Matchers) (levels : List Level) (curDir : Bytes) (ab
   simp only [verdictsOf]
   exact decide_core _ _ _ _ _
 
+/-- **C05 over a tree**: for one walk root (named in any way, with or without directories above it), an entry
+at any depth below the root is yielded by the walker exactly when the documented decision function says "do
+not skip" for the entry itself and for every directory on the way down to it — each asked of the chain of
+rule files that is in force in its own parent directory. -/
+theorem C05_tree (w : World) (comps : List Bytes) (isDir : Bool) :
+    entryVisited w comps isDir =
+      (List.range comps.length).all fun i =>
+        let pre := comps.take (i + 1)
+        let chain := chainFor w pre.dropLast
+        !(Precedence.decide w.opts.hidden
+            (verdictsOf w.opts w.m chain.1 (if w.fixRebase then w.rootGiven else chain.2)
+              (if wantsParents w.opts then some w.rootAbs else none)
+              (pre.foldl joinName w.rootGiven) (if i + 1 == comps.length then isDir else true))) := by
+  unfold entryVisited
+  have all_congr_mem : ∀ (l : List Nat) (f g : Nat → Bool), (∀ x ∈ l, f x = g x) → l.all f = l.all g := by
+    intro l f g h
+    induction l with
+    | nil => rfl
+    | cons a l ih =>
+      simp only [List.all_cons, h a (by simp), ih (fun x hx => h x (by simp [hx]))]
+  apply all_congr_mem
+  intro i hi
+  have hi' : i < comps.length := List.mem_range.mp hi
+  have hlen : (comps.take (i + 1)).length = i + 1 := by
+    rw [List.length_take]; omega
+  unfold entrySkipped skipEntry
+  simp only [hlen, Nat.add_eq_zero_iff, Nat.succ_ne_self, and_false, beq_iff_eq, ↓reduceIte, C05]
+
+/-- and the root itself, like every path named on the command line, is never filtered (depth 0) -/
+theorem C05_root (w : World) (isDir : Bool) : entryVisited w [] isDir = true := by
+  simp [entryVisited]
+
 /-! ### the flags (`hiargs.rs::walk_builder`): each removes exactly its own source -/
 
 /-- `--hidden` switches off the hidden filter and nothing else -/
